@@ -1,4 +1,5 @@
 import Glom.Spec.C15
+import Glom.Spec.C15Lazy
 import Glom.Lemmas.C13
 /-
   Helper lemmas for C15: heap frames, stability of every read of an input
@@ -1580,11 +1581,7 @@ theorem dictLookup_setDefault (es : List (Val × Val)) (k x q : Val) :
       · simp [hkq]
   | none =>
     have hnil : dictLookup ([] : List (Val × Val)) q = none := rfl
-    simp only
     rw [dictLookup_append, dictLookup_cons, hnil]
-    cases dictLookup es q with
-    | some w => rfl
-    | none => cases pyKeyEq k q <;> rfl
 
 theorem dictLookup_setDefaults (ps : List (Val × Val)) :
     ∀ (es : List (Val × Val)) (q : Val),
@@ -2303,5 +2300,343 @@ theorem runProgR_spec (H : Hier) (env : Env) (hconv : WFConv env = true) (h0 : H
         rw [hexp]
         exact ⟨hmm.1.trans hmm.1.1 this.1, this.2 [] (by simp) _ (Frame.rfl' (Nat.le_refl _))⟩
     | _ => exact absurd rfl hm
+
+theorem joinWith_append (f : Val → Option (List Val)) (a b : List Val) :
+    joinWith f (a ++ b) = match joinWith f a, joinWith f b with
+      | some x, some y => some (x ++ y)
+      | _, _ => none := by
+  induction a with
+  | nil => simp only [List.nil_append, joinWith]; cases joinWith f b <;> rfl
+  | cons x a ih =>
+    simp only [List.cons_append, joinWith, ih]
+    cases f x <;> cases joinWith f a <;> cases joinWith f b <;> simp [List.append_assoc]
+
+theorem joinN_append (h0 : Heap) :
+    ∀ (n : Nat) (a b : List Val), joinN h0 n (a ++ b) = match joinN h0 n a, joinN h0 n b with
+      | some x, some y => some (x ++ y)
+      | _, _ => none := by
+  intro n
+  induction n with
+  | zero => intro a b; simp [joinN]
+  | succ n ih =>
+    intro a b
+    rw [joinN_succ, joinN_succ h0 n a, joinN_succ h0 n b, joinWith_append]
+    cases joinWith (rawIter1 h0) a with
+    | none => rfl
+    | some x =>
+      cases joinWith (rawIter1 h0) b with
+      | none => simp only; cases joinN h0 n x <;> rfl
+      | some y => exact ih x y
+
+/-! ### lazy Flatten: the pull machine shows what the reference says -/
+
+namespace Lazy
+
+theorem next_refill_ok (h0 : Heap) (below st' : Stack) (h : refill h0 below = .ok st') :
+    next h0 ([] :: below) = next h0 st' := by
+  rw [next]
+  split
+  · rename_i st'' heq; rw [h] at heq; injection heq with heq; subst heq; rfl
+  · rename_i heq; rw [h] at heq; cases heq
+  · rename_i st'' heq; rw [h] at heq; cases heq
+
+theorem next_refill_exhausted (h0 : Heap) (below : Stack) (h : refill h0 below = .exhausted) :
+    next h0 ([] :: below) = .stop ([] :: below) := by
+  rw [next]
+  split
+  · rename_i st'' heq; rw [h] at heq; cases heq
+  · rfl
+  · rename_i st'' heq; rw [h] at heq; cases heq
+
+theorem next_refill_typeError (h0 : Heap) (below st' : Stack) (h : refill h0 below = .typeError st') :
+    next h0 ([] :: below) = .error st' := by
+  rw [next]
+  split
+  · rename_i st'' heq; rw [h] at heq; cases heq
+  · rename_i heq; rw [h] at heq; cases heq
+  · rename_i st'' heq; rw [h] at heq; injection heq with heq; subst heq; rfl
+
+theorem next_item (h0 : Heap) (x : Val) (cur : List Val) (below : Stack) :
+    next h0 ((x :: cur) :: below) = .item x (cur :: below) := by rw [next]
+
+theorem pulls_congr (h0 : Heap) (total : Nat) (st st2 : Stack) (h : next h0 st = next h0 st2) :
+    pulls h0 total st = pulls h0 total st2 := by
+  rw [pulls, pulls]
+  split <;> split <;> simp_all
+
+theorem pulls_of_item (h0 : Heap) (total : Nat) (st : Stack) (v : Val) (st' : Stack)
+    (h : next h0 st = .item v st') :
+    pulls h0 total st = .item v (total - srcLen st') :: pulls h0 total st' := by
+  rw [pulls]
+  split <;> simp_all
+
+theorem pulls_of_stop (h0 : Heap) (total : Nat) (st st' : Stack) (h : next h0 st = .stop st') :
+    pulls h0 total st = [.stop (total - srcLen st')] := by
+  rw [pulls]
+  split <;> simp_all
+
+theorem pulls_of_error (h0 : Heap) (total : Nat) (st st' : Stack) (h : next h0 st = .error st') :
+    pulls h0 total st = [.error (total - srcLen st')] := by
+  rw [pulls]
+  split <;> simp_all
+
+theorem leaves_zero (h0 : Heap) (v : Val) : leaves h0 0 v = ([v], true) := rfl
+
+theorem leaves_succ (h0 : Heap) (n : Nat) (v : Val) :
+    leaves h0 (n + 1) v = match rawIter1 h0 v with
+      | none => ([], false)
+      | some ys => seqLeaves (leaves h0 n) ys := rfl
+
+theorem seqLeaves_nil (f : Val → List Val × Bool) : seqLeaves f [] = ([], true) := rfl
+
+theorem seqLeaves_cons (f : Val → List Val × Bool) (x : Val) (xs : List Val) :
+    seqLeaves f (x :: xs) =
+      if (f x).2 then ((f x).1 ++ (seqLeaves f xs).1, (seqLeaves f xs).2) else ((f x).1, false) := rfl
+
+theorem srcLen_cons_cons (l m : List Val) (ms : Stack) : srcLen (l :: m :: ms) = srcLen (m :: ms) := by
+  simp [srcLen, List.getLast?_cons_cons]
+
+theorem srcLen_single (l : List Val) : srcLen [l] = l.length := by simp [srcLen]
+
+theorem srcLen_nil_cons (st : Stack) : srcLen ([] :: st) = srcLen st := by
+  cases st with
+  | nil => simp [srcLen]
+  | cons m ms => exact srcLen_cons_cons [] m ms
+
+/-- what an observer will see of a stack from now on: the leaves buffered at each level (the
+    values at depth `d` still have `d` chain levels above them), each reported with the CURRENT
+    number of fetched source items, then the source items one by one -/
+def stackObs (h0 : Heap) (total : Nat) : Nat → Stack → List PullObs
+  | _, [] => [.stop total]
+  | d, [src] => refPullsFrom h0 d total src
+  | d, l :: m :: ms =>
+    (seqLeaves (leaves h0 d) l).1.map (fun v => PullObs.item v (total - srcLen (m :: ms))) ++
+      (if (seqLeaves (leaves h0 d) l).2 then stackObs h0 total (d + 1) (m :: ms)
+       else [.error (total - srcLen (m :: ms))])
+
+theorem stackObs_nil_cons (h0 : Heap) (total d : Nat) (st : Stack) :
+    stackObs h0 total d ([] :: st) = stackObs h0 total (d + 1) st := by
+  cases st with
+  | nil => simp [stackObs, refPullsFrom]
+  | cons m ms => simp [stackObs, seqLeaves_nil]
+
+/-- one refill leaves the future observations as they were -/
+theorem refill_obs (h0 : Heap) (total : Nat) :
+    ∀ (below : Stack) (d : Nat),
+      match refill h0 below with
+      | .ok st' => stackObs h0 total d st' = stackObs h0 total d ([] :: below)
+      | .exhausted => stackObs h0 total d ([] :: below) = [.stop total] ∧ srcLen ([] :: below) = 0
+      | .typeError st' => stackObs h0 total d ([] :: below) = [.error (total - srcLen st')] := by
+  intro below
+  induction below with
+  | nil => intro d; simp [refill, stackObs, refPullsFrom, srcLen]
+  | cons l more ih =>
+    intro d
+    cases l with
+    | nil =>
+      have := ih (d + 1)
+      simp only [refill]
+      cases hr : refill h0 more with
+      | ok st'' =>
+        rw [hr] at this
+        simp only
+        rw [stackObs_nil_cons, this, stackObs_nil_cons h0 total d ([] :: more)]
+      | exhausted =>
+        rw [hr] at this
+        simp only
+        rw [stackObs_nil_cons, srcLen_nil_cons]
+        exact this
+      | typeError st'' =>
+        rw [hr] at this
+        simp only
+        rw [stackObs_nil_cons, srcLen_nil_cons]
+        exact this
+    | cons v rest =>
+      simp only [refill]
+      rw [stackObs_nil_cons]
+      cases hv : rawIter1 h0 v with
+      | some ys =>
+        simp only
+        cases more with
+        | nil =>
+          simp only [stackObs, refPullsFrom, leaves_succ, hv, srcLen_single]
+        | cons m ms =>
+          simp only [stackObs, seqLeaves_cons, leaves_succ, hv, srcLen_cons_cons]
+          by_cases hok : (seqLeaves (leaves h0 d) ys).2 = true
+          · simp only [hok, if_true, List.map_append, List.append_assoc]
+          · simp only [hok, Bool.false_eq_true, if_false]
+      | none =>
+        simp only
+        cases more with
+        | nil =>
+          simp only [stackObs, refPullsFrom, leaves_succ, hv, srcLen_cons_cons, srcLen_single, List.map_nil,
+            List.nil_append, Bool.false_eq_true, if_false]
+        | cons m ms =>
+          simp only [stackObs, seqLeaves_cons, leaves_succ, hv, srcLen_cons_cons, List.map_nil,
+            List.nil_append, Bool.false_eq_true, if_false]
+
+theorem stackObs_item (h0 : Heap) (total : Nat) (x : Val) (cur : List Val) (below : Stack) :
+    stackObs h0 total 0 ((x :: cur) :: below) =
+      .item x (total - srcLen (cur :: below)) :: stackObs h0 total 0 (cur :: below) := by
+  cases below with
+  | nil =>
+    simp only [stackObs, refPullsFrom, leaves_zero, srcLen_single, List.map_cons, List.map_nil, if_true,
+      List.cons_append, List.nil_append]
+  | cons m ms =>
+    simp only [stackObs, seqLeaves_cons, leaves_zero, if_true, srcLen_cons_cons, List.map_cons, List.cons_append,
+      List.map_append, List.nil_append, List.map_nil]
+
+/-- **the pull machine shows exactly what the stack denotes** -/
+theorem pulls_eq_stackObs (h0 : Heap) (total : Nat) :
+    ∀ (n : Nat) (st : Stack), weight h0 st = n → pulls h0 total st = stackObs h0 total 0 st := by
+  intro n
+  induction n using Nat.strongRecOn with
+  | ind n ih =>
+    intro st hw
+    cases st with
+    | nil =>
+      have : next h0 [] = .stop [] := by rw [next]
+      rw [pulls_of_stop h0 total [] [] this]
+      simp [stackObs, srcLen]
+    | cons l below =>
+      cases l with
+      | cons x cur =>
+        have hn := next_item h0 x cur below
+        rw [pulls_of_item h0 total _ x _ hn, stackObs_item]
+        have hlt := next_item_weight h0 _ x _ hn
+        rw [ih _ (by omega) _ rfl]
+      | nil =>
+        have hR := refill_obs h0 total below 0
+        cases hr : refill h0 below with
+        | ok st' =>
+          rw [hr] at hR
+          have hw' := refill_weight h0 below 0 st' hr
+          rw [pulls_congr h0 total _ _ (next_refill_ok h0 below st' hr)]
+          rw [ih (weight h0 st') (by simp only [weight] at hw ⊢; omega) st' rfl]
+          exact hR
+        | exhausted =>
+          rw [hr] at hR
+          rw [pulls_of_stop h0 total _ _ (next_refill_exhausted h0 below hr), hR.1, hR.2]
+          simp
+        | typeError st' =>
+          rw [hr] at hR
+          rw [pulls_of_error h0 total _ _ (next_refill_typeError h0 below st' hr), hR]
+
+theorem stackObs_init (h0 : Heap) (total : Nat) (xs : List Val) :
+    ∀ (k d : Nat), stackObs h0 total d (initStack k xs) = refPullsFrom h0 (d + k) total xs := by
+  intro k
+  induction k with
+  | zero => intro d; simp [initStack, stackObs]
+  | succ k ih =>
+    intro d
+    have : initStack (k + 1) xs = [] :: initStack k xs := by simp [initStack, List.replicate_succ]
+    rw [this, stackObs_nil_cons, ih (d + 1)]
+    congr 1
+    omega
+
+theorem srcLen_init (k : Nat) (xs : List Val) : srcLen (initStack k xs) = xs.length := by
+  induction k with
+  | zero => simp [initStack, srcLen]
+  | succ k ih =>
+    have : initStack (k + 1) xs = [] :: initStack k xs := by simp [initStack, List.replicate_succ]
+    rw [this, srcLen_nil_cons, ih]
+
+/-- the values of the reference run are the leaves, in order: with every level iterable, exactly
+    the `k`-fold join -/
+theorem seqLeaves_ok_join (h0 : Heap) :
+    ∀ (n : Nat) (xs ys : List Val), joinN h0 n xs = some ys →
+      seqLeaves (leaves h0 n) xs = (ys, true) := by
+  intro n
+  induction n with
+  | zero =>
+    intro xs ys h
+    simp only [joinN, Option.some.injEq] at h
+    subst h
+    induction xs with
+    | nil => rfl
+    | cons x xs ih => simp only [seqLeaves_cons, leaves_zero, ih, if_true, List.cons_append, List.nil_append]
+  | succ n ih =>
+    intro xs
+    induction xs with
+    | nil =>
+      intro ys h
+      have : joinN h0 (n + 1) [] = some [] := by
+        clear h ih
+        induction n with
+        | zero => simp [joinN, joinWith]
+        | succ n ihn => rw [joinN_succ]; simpa [joinWith] using ihn
+      rw [this] at h; injection h with h; subst h; rfl
+    | cons x xs ihx =>
+      intro ys h
+      rw [joinN_succ] at h
+      simp only [joinWith] at h
+      cases hx : rawIter1 h0 x with
+      | none => simp [hx] at h
+      | some a =>
+        cases hj : joinWith (rawIter1 h0) xs with
+        | none => simp [hx, hj] at h
+        | some b =>
+          simp only [hx, hj] at h
+          -- joinN n (a ++ b) = joinN n a ++ joinN n b
+          have happ := joinN_append h0 n a b
+          rw [h] at happ
+          cases ha : joinN h0 n a with
+          | none => simp [ha] at happ
+          | some ya =>
+            cases hb : joinN h0 n b with
+            | none => simp [ha, hb] at happ
+            | some yb =>
+              simp only [ha, hb, Option.some.injEq] at happ
+              have hrest : joinN h0 (n + 1) xs = some yb := by rw [joinN_succ, hj]; exact hb
+              have h1 := ih a ya ha
+              have h2 := ihx yb hrest
+              simp only [seqLeaves_cons, leaves_succ, hx, h1, h2, if_true]
+              rw [happ]
+
+theorem pulledValues_items (l : List Val) (f : Nat) (r : List PullObs) :
+    pulledValues (l.map (fun v => PullObs.item v f) ++ r) = l ++ pulledValues r := by
+  induction l with
+  | nil => rfl
+  | cons x l ih => simp [pulledValues, ih]
+
+theorem endsInStop_items (l : List Val) (f : Nat) (r : List PullObs) (hr : r ≠ []) :
+    endsInStop (l.map (fun v => PullObs.item v f) ++ r) = endsInStop r := by
+  induction l with
+  | nil => rfl
+  | cons x l ih =>
+    simp only [List.map_cons, List.cons_append]
+    cases hq : (List.map (fun v => PullObs.item v f) l ++ r) with
+    | nil => simp at hq; exact absurd hq.2 hr
+    | cons q qs => rw [← hq]; simp only [endsInStop, hq]; rw [← hq]; exact ih
+
+theorem refPullsFrom_ne_nil (h0 : Heap) (k total : Nat) (xs : List Val) : refPullsFrom h0 k total xs ≠ [] := by
+  induction xs with
+  | nil => simp [refPullsFrom]
+  | cons x rest ih =>
+    simp only [refPullsFrom]
+    split
+    · intro h; exact ih (List.append_eq_nil_iff.mp h).2
+    · simp
+
+/-- the values of the reference run are the depth-first leaves of the source items, up to the
+    first value that is not iterable; the run ends in StopIteration iff there is none -/
+theorem refPulls_values (h0 : Heap) (k total : Nat) :
+    ∀ xs : List Val,
+      pulledValues (refPullsFrom h0 k total xs) = (seqLeaves (leaves h0 k) xs).1 ∧
+      endsInStop (refPullsFrom h0 k total xs) = (seqLeaves (leaves h0 k) xs).2 := by
+  intro xs
+  induction xs with
+  | nil => exact ⟨rfl, rfl⟩
+  | cons x rest ih =>
+    simp only [refPullsFrom, seqLeaves_cons]
+    by_cases hok : (leaves h0 k x).2 = true
+    · simp only [hok, if_true]
+      rw [pulledValues_items, endsInStop_items _ _ _ (refPullsFrom_ne_nil h0 k total rest), ih.1, ih.2]
+      exact ⟨rfl, rfl⟩
+    · simp only [hok, Bool.false_eq_true, if_false]
+      rw [pulledValues_items, endsInStop_items _ _ _ (by simp)]
+      simp [pulledValues, endsInStop]
+
+end Lazy
 
 end Glom.C15
